@@ -508,7 +508,8 @@ func (g *gen) ctorCase() {
 	g.runCtor(args, r.Intn(2) == 0, "constructor")
 }
 
-// ---------- pinned witnesses of the listed findings (run first on every run) ----------
+// ---------- pinned witnesses (run first on every run): open findings 2-4 expect otto's deviation,
+// repaired findings 1, 5-9 are regression cases that expect the ES5 result ----------
 
 func nums(xs ...float64) []*V {
 	a := make([]*V, len(xs))
@@ -521,7 +522,7 @@ func nums(xs ...float64) []*V {
 func (g *gen) pinned() {
 	arr := func(e []*V) Recv { return Recv{arr: true, elems: e} }
 	cb := Arg{kind: 'c'}
-	// 1 non-canonical names taken as indices
+	// 1 (fixed 4b90749) non-canonical names are plain names
 	g.runHist(arr(nil), []Op{{kind: 's', k: kName("01"), v: vNum(1)}}, "pinned")
 	g.runHist(arr(nil), []Op{{kind: 's', k: kName("+1"), v: vNum(1)}}, "pinned")
 	g.runHist(arr(nums(7)), []Op{{kind: 's', k: kName("-0"), v: vNum(1)}}, "pinned")
@@ -535,16 +536,16 @@ func (g *gen) pinned() {
 	g.runHist(arr([]*V{nil, nil}), []Op{{kind: 'c', m: 16, args: []Arg{cb}}}, "pinned")
 	// 4 reduceRight index argument
 	g.runHist(arr(nums(5, 7)), []Op{{kind: 'c', m: 16, args: []Arg{cb}}}, "pinned")
-	// 5 splice()
+	// 5 (fixed 5af2855) splice() deletes nothing
 	g.runHist(arr(nums(1, 2, 3)), []Op{{kind: 'c', m: 6}}, "pinned")
-	// 6 reverse: Delete before Put
+	// 6 (fixed 63573fc) reverse: Put before Delete
 	g.runHist(arr([]*V{nil, vp(vNum(2))}), []Op{{kind: 'p', k: kIdx(1), d: Desc{v: vp(vNum(2)), w: bp(true), e: bp(true), c: bp(false)}}, {kind: 'c', m: 3}}, "pinned")
-	// 7 lastIndexOf with fromIndex = length
+	// 7 (fixed 0dd4ff4) lastIndexOf with fromIndex = length
 	g.runHist(Recv{arr: false, elems: []*V{vp(vStr("a")), vp(vStr("b")), vp(vStr("c"))}, length: vp(vNum(2))},
 		[]Op{{kind: 'c', m: 9, args: []Arg{av(vStr("c")), av(vNum(2))}}}, "pinned")
-	// 8 length redefined with its own value when not writable
+	// 8 (fixed 9d565b2) length redefined with its own value when not writable
 	g.runHist(arr(nums(1, 2, 3)), []Op{{kind: 'p', k: kName("length"), d: Desc{w: bp(false)}}, {kind: 'p', k: kName("length"), d: Desc{v: vp(vNum(3))}}}, "pinned")
-	// 9 substr: start + length overflows int64
+	// 9 (fixed 27b5748) substr: saturated length
 	g.runStr(2, "abc", []V{vNum(1), vNum(math.Inf(1))}, "pinned")
 }
 
